@@ -22,14 +22,32 @@ RULE = ('failing evaluations only: a random target (short, long (lists of 40+ it
         'scope[glom] call is recorded through scope={glom.glom: tracer} (parent scope identity, NO_PYFRAME flag, bbrepr '
         'of spec and target, len(), target identity, outcome); each recorded evaluation is rendered at 5 widths (50, 60, '
         '80, 110, 200) by calling format_target_spec_trace on the real scope; in 12% of the cases the same target object '
-        'first went through a failing call (trace rendered) and was then changed in place. non-trivial = >= 3 calls and (a branch or '
+        'first went through a failing call (trace rendered) and was then changed in place; in 12% a branching spec (Switch, Or, And, '
+        'Coalesce, Match, Check; bare or under Match) every branch / key of which is rejected on the target (missing key, type '
+        'mismatch, raising callable, nested all-failing Coalesce / Or / Switch, chain failing at a later step) and whose default= '
+        'is itself a spec that raises (failing T, Spec(path), Spec(raising callable), container with a failing T leaf, Spec(chain '
+        'failing at a later step), Spec(all-failing Coalesce), again such a branching spec), placed bare / as a later chain step / '
+        'dict value / last branch of an outer Coalesce or Or; callables raising NON-GLOM exceptions -- KeyError (raised and from a '
+        'real lookup), KeyError with 2 args, IndexError with args, OSError(2, x) / OSError(13, x, filename), UnicodeDecodeError '
+        '(five required constructor args), StopIteration, SyntaxError with location, user classes with their own __str__ (also '
+        'multi-line, also a KeyError subclass), and two classes GlomError.wrap cannot re-create -- sit at every leaf position '
+        'with probability 0.08 in 40% of the cases, and in 12% one random leaf position (callable, T, str path, function of a '
+        'Call / Invoke, Switch key, default) is replaced by one; the property is evaluated on exc._target_spec_trace AND on '
+        'str(exc) itself (the trace read from the message from its first Target: line on, the original error text it ends with '
+        'removed), and str(exc) must be header + model trace at the default width + traceback lines. non-trivial = >= 3 calls and (a branch or '
         'a chain or a truncation); distinct = distinct (events, width)')
 TRUSTED = ['bbrepr of specs/targets and traceback.format_exception_only texts are taken as given strings']
 ASSUMPTIONS = ['the Python traceback lines appended after the trace are Python\'s (not compared)',
                'the structural theorems (Props/C05Spine) are about evaluation trees: every recorded evaluation is checked to be '
                'the event list of a well-formed tree (a chained step continues from a sub-evaluation that returned; the root '
                'error identity is the outcome of calls along one propagation path only)',
-               'the evaluation tree is observed through scope[glom]: a spec type that bypasses scope[glom] is invisible']
+               'the evaluation tree is observed through scope[glom]: a spec type that bypasses scope[glom] is invisible',
+               'an exception object that cannot be re-created from its .args (type(e)(*e.args) raises, or yields different '
+               '.args) cannot be wrapped: glom() then raises the user\'s own object, whose message is the user\'s -- "an error '
+               'raised by glom()" is read as a GlomError (incl. GlomError.wrap(<class>)); such cases are generated and skipped. A '
+               'non-GlomError leaving glom() although it can be re-created from .args IS reported (its message has no trace)',
+               'the trace contained in a message is read from the first line with a Target: label on, after removing the type and '
+               'message of the original error the message ends with (which may itself contain the trace of a nested glom call)']
 MANIFEST = dict(
     text=("partial. Lean 4 model of glom's error bookkeeping exactly as coded (_glom's exception handler with the "
           "NO_PYFRAME walk, chain_child's re-wiring and forgiving, LAST_CHILD_SCOPE / CHILD_ERRORS / CUR_ERROR, "
@@ -59,8 +77,13 @@ MANIFEST = dict(
           "is prefix-preserving and fits the width. The property on the TEXT (begins with the root target, lists "
           "the failing path in order, shows the failing spec's target, shows every failed branch with its error, lists "
           "nothing that returned normally below the failing spec) is "
-          "a Lean predicate checkC05 evaluated on the real trace text and on the model's text for every recorded "
-          "evaluation; the model must reproduce the real text character for character."),
+          "a Lean predicate checkC05 evaluated on the real trace text, on the trace read from str(exc) itself "
+          "(checkMessageC05: from the first Target: line of the message on; c05_header_is_preamble - the header "
+          "GlomError.__str__ writes carries no Target: label; c05_message_needs_target_line - a message without one "
+          "fails, e.g. the str() of a wrapped KeyError / OSError / user exception with its own __str__ before glom "
+          "949a58d) and on the model's text for every recorded "
+          "evaluation; the model must reproduce the real text character for character, and str(exc) must be the "
+          "header, the model's trace at the default width and the traceback lines."),
     note=("partial: the lift from the rows to the rendered text (checkC05 of the model's text) is validated per case, "
           "not proved; the relation of CHILD_ERRORS to the checker's failedBranches is proved for unchained "
           "sub-evaluations only; repr of objects and the traceback tail are Python's. trusted: Lean kernel + "
